@@ -31,6 +31,105 @@ type vtC09MCur struct {
 	i  int
 }
 
+// vtC09PodShape realises a total pod request (what k8s PodRequests reports) in one of five container
+// layouts: one container; two containers; an init container that dominates smaller regular containers;
+// a container plus pod overhead; a restartable (sidecar) init container next to a regular container.
+func vtC09PodShape(pod *corev1.Pod, i int, reqCPU, reqMem int64, rl func(cpu, mem int64, omitZero bool) corev1.ResourceList) {
+	ctr := func(name string, cpu, mem int64, omitZero bool) corev1.Container {
+		return corev1.Container{Name: name, Resources: corev1.ResourceRequirements{Requests: rl(cpu, mem, omitZero)}}
+	}
+	switch i % 5 {
+	case 1:
+		c1c, c1m := reqCPU/3, reqMem/3
+		pod.Spec.Containers = []corev1.Container{ctr("c1", c1c, c1m, false), ctr("c2", reqCPU-c1c, reqMem-c1m, true)}
+	case 2:
+		pod.Spec.InitContainers = []corev1.Container{ctr("i1", reqCPU/2, reqMem, true), ctr("i2", reqCPU, reqMem/2, false)}
+		pod.Spec.Containers = []corev1.Container{ctr("c1", reqCPU/3, reqMem/3, true), ctr("c2", reqCPU/3, reqMem/3, false)}
+	case 3:
+		oc, om := reqCPU/4, reqMem/4
+		pod.Spec.Containers = []corev1.Container{ctr("c1", reqCPU-oc, reqMem-om, true)}
+		pod.Spec.Overhead = rl(oc, om, false)
+	case 4:
+		sc, sm := reqCPU/3, reqMem/3
+		always := corev1.ContainerRestartPolicyAlways
+		side := ctr("s1", sc, sm, false)
+		side.RestartPolicy = &always
+		pod.Spec.InitContainers = []corev1.Container{side}
+		pod.Spec.Containers = []corev1.Container{ctr("c1", reqCPU-sc, reqMem-sm, true)}
+	default:
+		pod.Spec.Containers = []corev1.Container{ctr("c1", reqCPU, reqMem, true)}
+	}
+}
+
+// vtC09LabelStr spells the ratio label of the given kind (coq/C09/Model.v label_scale): the decimal
+// h/scale in one of the forms strconv.ParseFloat accepts; ok=false: no label.
+func vtC09LabelStr(kind, h int64) (string, bool) {
+	switch kind {
+	case 0:
+		return "", false
+	case 1:
+		return fmt.Sprintf("%d.%02d", h/100, h%100), true
+	case 2:
+		return "abc", true
+	case 4:
+		return fmt.Sprintf("%d.%03d", h/1000, h%1000), true
+	case 5: // exponent form: (h/100).(h%100)e-1 = h/1000
+		return fmt.Sprintf("%d.%02de-1", h/100, h%100), true
+	case 6:
+		if h < 10 && h%2 == 0 {
+			return fmt.Sprintf(".%d", h), true
+		}
+		return fmt.Sprintf("+%d.%d", h/10, h%10), true
+	case 7:
+		return fmt.Sprintf("%d.%04d", h/10000, h%10000), true
+	}
+	return "-0.30", true
+}
+
+// vtC09LabelGen draws a label kind and its numerator: boundary-biased (0, 100 %, just below a whole
+// percent, third-decimal 5, float-unfriendly values).
+func vtC09LabelGen(r *rand.Rand, above100 bool) (int64, int64) {
+	kind := []int64{0, 1, 1, 1, 2, 3, 4, 4, 5, 6, 7}[r.Intn(11)]
+	scale := int64(100)
+	switch kind {
+	case 4, 5:
+		scale = 1000
+	case 6:
+		scale = 10
+	case 7:
+		scale = 10000
+	}
+	var h int64
+	switch r.Intn(8) {
+	case 0:
+		h = 0
+	case 1:
+		h = scale
+	case 2:
+		h = scale * 29 / 100 // 0.29*100 = 28.999999999999996
+	case 3:
+		// a whole percent plus a tail of .5 / .59 / .99 percent (third and fourth decimals)
+		h = scale*int64(r.Intn(100))/100 + []int64{scale / 200, scale * 59 / 10000, scale * 99 / 10000, scale/100 - 1}[r.Intn(4)]
+		if h < 0 {
+			h = 0
+		}
+	case 4:
+		h = scale - 1 // 0.9, 0.99, 0.999, 0.9999
+	case 5:
+		if above100 {
+			h = scale + r.Int63n(scale*6/10+1)
+		} else {
+			h = r.Int63n(scale + 1)
+		}
+	default:
+		h = r.Int63n(scale + 1)
+	}
+	if kind == 7 && h > 16383 {
+		h = 16383
+	}
+	return kind, h
+}
+
 func (c *vtC09MCur) next() int64 {
 	if c.i >= len(c.in) {
 		panic("verif harness: short input")
@@ -206,17 +305,7 @@ func vtC09MExec(x []int64) []int64 {
 		default:
 			pod.Status.QOSClass = corev1.PodQOSBestEffort
 		}
-		if i%2 == 1 {
-			c1c, c1m := reqCPU/3, reqMem/3
-			pod.Spec.Containers = []corev1.Container{
-				{Name: "c1", Resources: corev1.ResourceRequirements{Requests: vtC09MRL(c1c, c1m, false)}},
-				{Name: "c2", Resources: corev1.ResourceRequirements{Requests: vtC09MRL(reqCPU-c1c, reqMem-c1m, true)}},
-			}
-		} else {
-			pod.Spec.Containers = []corev1.Container{
-				{Name: "c1", Resources: corev1.ResourceRequirements{Requests: vtC09MRL(reqCPU, reqMem, true)}},
-			}
-		}
+		vtC09PodShape(&pod, i, reqCPU, reqMem, vtC09MRL)
 		podList.Items = append(podList.Items, pod)
 	}
 
@@ -241,14 +330,8 @@ func vtC09MExec(x []int64) []int64 {
 			node.Annotations[extension.AnnotationNodeColocationStrategy] = `{"midUnallocatedPercent":"all"}`
 		}
 		lbl := func(key string, kind, h int64) {
-			switch kind {
-			case 0:
-			case 1:
-				node.Labels[key] = fmt.Sprintf("%d.%02d", h/100, h%100)
-			case 2:
-				node.Labels[key] = "abc"
-			default:
-				node.Labels[key] = "-0.30"
+			if v, ok := vtC09LabelStr(kind, h); ok {
+				node.Labels[key] = v
 			}
 		}
 		lbl(extension.LabelMidStaticCPUReservedRatio, k1, h1)
@@ -384,20 +467,9 @@ func vtC09MGen(r *rand.Rand, i int) (string, []int64) {
 	if r.Intn(2) == 0 {
 		in = append(in, 0, -1, -1, -1, 0, 0, 0, 0)
 	} else {
-		ratio := func() int64 {
-			switch r.Intn(5) {
-			case 0:
-				return 0
-			case 1:
-				return 100
-			case 2:
-				return 29
-			default:
-				return int64(r.Intn(101))
-			}
-		}
-		in = append(in, []int64{0, 1, 1, 2, 3}[r.Intn(5)], pct(), pct(), pct(),
-			[]int64{0, 1, 1, 2, 3}[r.Intn(5)], ratio(), []int64{0, 1, 1, 2, 3}[r.Intn(5)], ratio())
+		k1, h1 := vtC09LabelGen(r, false)
+		k2, h2 := vtC09LabelGen(r, false)
+		in = append(in, []int64{0, 1, 1, 2, 3}[r.Intn(5)], pct(), pct(), pct(), k1, h1, k2, h2)
 	}
 	return style, in
 }
